@@ -38,9 +38,14 @@ type nativeOut struct {
 	obsOK  bool
 	ran    bool
 	crash  string
+
+	forceConfirmed bool // confirmed by a concurrent replay
 }
 
 func (o *nativeOut) confirmed() bool {
+	if o.forceConfirmed {
+		return true
+	}
 	if !o.ran {
 		return false
 	}
